@@ -24,51 +24,66 @@ namespace CBV.C11
 
 abbrev Block := List Nat
 abbrev Blocking := List Block
-abbrev Wire := Nat × Nat
+/-- a wire = unordered vertex pair {u, v}, coded as the number `min u v * M + max u v` with `M` larger than
+    every vertex id of the blocking (injective for `u, v < M`, `wireKey_inj` in Lemmas) -/
+abbrev Wire := Nat
 
-/-! ### wires, neighbour axes -/
+def wireKey (M u v : Nat) : Wire := if u ≤ v then u * M + v else v * M + u
 
-/-- unordered vertex pair -/
-def wireKey (u v : Nat) : Wire := if u ≤ v then (u, v) else (v, u)
+def maxOf (xs : List Nat) : Nat := xs.foldl max 0
+
+/-- a bound above every vertex id of a blocking -/
+def vertexBound (B : Blocking) : Nat := maxOf (B.map maxOf) + 1
+
+/-- a set of wires as a bit mask: wire `w` is bit `w` (set operations are single big-number operations,
+    which the kernel evaluates natively under `decide`) -/
+abbrev Mask := Nat
+
+def orAll (ms : List Mask) : Mask := ms.foldr (· ||| ·) 0
 
 /-- the (non-degenerate) wires of axis `a` of a block, through the generated `AXIS_PAIRS` -/
-def axisWires (b : Block) (a : Nat) : List Wire :=
-  ((CBV.Gen.axisPairs.getD a []).map (fun p => wireKey (b.getD p.1 0) (b.getD p.2 0))).filter
-    (fun w => w.1 != w.2)
+def axisWires (M : Nat) (b : Block) (a : Nat) : List Wire :=
+  ((CBV.Gen.axisPairs.getD a []).filter (fun p => !Nat.beq (b.getD p.1 0) (b.getD p.2 0))).map
+    (fun p => wireKey M (b.getD p.1 0) (b.getD p.2 0))
 
-/-- node `3*b + a` = axis `a` of block `b`; the table of the wires of every node -/
-def wireTable (B : Blocking) : List (List Wire) :=
-  B.flatMap (fun b => [axisWires b 0, axisWires b 1, axisWires b 2])
+def maskOf (ws : List Wire) : Mask := orAll (ws.map (2 ^ ·))
 
-/-- do two wire lists have a wire in common (`Axis.add_neighbour`: some pair of wires is coincident) -/
-def shares (w1 w2 : List Wire) : Bool := w1.any (fun x => w2.contains x)
+/-- node `3*b + a` = axis `a` of block `b`; the table of the wire sets of every node -/
+def wireTableM (M : Nat) (B : Blocking) : List Mask :=
+  B.flatMap (fun b => [maskOf (axisWires M b 0), maskOf (axisWires M b 1), maskOf (axisWires M b 2)])
 
-def adjT (T : List (List Wire)) (n m : Nat) : Bool := shares (T.getD n []) (T.getD m [])
+/-- (the `match` makes the kernel evaluate the bound once instead of once per wire) -/
+def wireTable (B : Blocking) : List Mask :=
+  match vertexBound B with
+  | 0 => wireTableM 0 B
+  | M + 1 => wireTableM (M + 1) B
 
-/-- neighbour relation of block axes (nodes) -/
-def adj (B : Blocking) (n m : Nat) : Bool := adjT (wireTable B) n m
+/-- a node of the propagation: the wires of a block axis and its number `3*b + a` -/
+abbrev Node := Mask × Nat
 
-/-! ### propagation at axis level -/
+/-- the nodes in order: `(wires, number)` -/
+def nodesOf (T : List Mask) : List Node := T.zipIdx
 
-/-- nodes that are not yet in `vis` and are a neighbour of a node of the frontier -/
-def newNodes (T : List (List Wire)) (vis frontier : List Nat) : List Nat :=
-  (List.range T.length).filter (fun n => !vis.contains n && frontier.any (fun m => adjT T m n))
+def memN (n : Nat) : List Nat → Bool
+  | [] => false
+  | x :: xs => Nat.beq n x || memN n xs
 
-/-- breadth-first passes until nothing changes; `none` = out of fuel (never happens with fuel > #nodes).
-    `vis` = defined axes so far, `frontier` = those defined in the last pass. -/
-def iter (T : List (List Wire)) : Nat → List Nat → List Nat → Option (List Nat)
-  | 0, _, _ => none
-  | fuel + 1, vis, frontier =>
-    match newNodes T vis frontier with
+/-- does the node own one of the wires `fw` (`Axis.add_neighbour`: some pair of wires is coincident) -/
+def hit (fw : Mask) (x : Node) : Bool := !Nat.beq (fw &&& x.1) 0
+
+/-- breadth-first passes of the propagation until nothing changes; `none` = out of fuel (never happens
+    with fuel > #nodes).  `vis` = defined axes so far, `fw` = the wires of the axes defined in the last
+    pass, `rest` = the axes that are still undefined. -/
+def iter : Nat → List Nat → Mask → List Node → Option (List Nat)
+  | 0, _, _, _ => none
+  | fuel + 1, vis, fw, rest =>
+    match rest.filter (hit fw) with
     | [] => some vis
-    | x :: xs => iter T fuel (vis ++ x :: xs) (x :: xs)
+    | x :: xs => iter fuel ((x :: xs).map (·.2) ++ vis) (orAll ((x :: xs).map (·.1))) (rest.filter (fun y => !hit fw y))
 
-/-- the valid, de-duplicated seed nodes -/
-def seedsOf (T : List (List Wire)) (chops : List Nat) : List Nat :=
-  (List.range T.length).filter (fun n => chops.contains n)
-
-def closureT (T : List (List Wire)) (chops : List Nat) : Option (List Nat) :=
-  iter T (T.length + 1) (seedsOf T chops) (seedsOf T chops)
+def closureT (T : List Mask) (chops : List Nat) : Option (List Nat) :=
+  let seeds := (nodesOf T).filter (fun x => memN x.2 chops)
+  iter (T.length + 1) (seeds.map (·.2)) (orAll (seeds.map (·.1))) ((nodesOf T).filter (fun x => !memN x.2 chops))
 
 /-- the defined axes after `grade_blocks` + `propagate_gradings`, `chops` = chopped nodes -/
 def closure (B : Blocking) (chops : List Nat) : Option (List Nat) := closureT (wireTable B) chops
@@ -79,9 +94,18 @@ inductive WriteResult where
   | fuel
   deriving DecidableEq, Repr
 
-/-- blocks that own an axis outside `d` -/
+/-- is node `n` in the node set coded as a bit mask -/
+def inMask (dm : Mask) (n : Nat) : Bool := dm.testBit n
+
+/-- blocks that own an axis outside the set `dm` of defined nodes -/
+def undefinedBlocksM (B : Blocking) (dm : Mask) : List Nat :=
+  (List.range B.length).filter (fun b => !(inMask dm (3 * b) && inMask dm (3 * b + 1) && inMask dm (3 * b + 2)))
+
+/-- blocks that own an axis outside `d` (the `match` makes the kernel evaluate the mask of `d` once) -/
 def undefinedBlocks (B : Blocking) (d : List Nat) : List Nat :=
-  (List.range B.length).filter (fun b => !(d.contains (3 * b) && d.contains (3 * b + 1) && d.contains (3 * b + 2)))
+  match maskOf d with
+  | 0 => undefinedBlocksM B 0
+  | dm + 1 => undefinedBlocksM B (dm + 1)
 
 /-- `Mesh.write` as far as gradings are concerned: `UndefinedGradingsError` names the undefined blocks -/
 def writeResult (B : Blocking) (chops : List Nat) : WriteResult :=
@@ -91,14 +115,17 @@ def writeResult (B : Blocking) (chops : List Nat) : WriteResult :=
     | [] => .ok
     | bs => .undefined bs
 
-def writeOk (B : Blocking) (chops : List Nat) : Bool := writeResult B chops == .ok
+def writeOk (B : Blocking) (chops : List Nat) : Bool :=
+  match writeResult B chops with
+  | .ok => true
+  | _ => false
 
 /-- family label of a node: the smallest node of its connected component -/
 def familyOf (B : Blocking) (n : Nat) : Option Nat :=
   (closure B [n]).map (fun d => d.foldl min n)
 
 /-- labels of all nodes, one closure per family: `labs` = (node, label) found so far -/
-def labelAll (T : List (List Wire)) : Nat → List Nat → List (Nat × Nat) → Option (List (Nat × Nat))
+def labelAll (T : List Mask) : Nat → List Nat → List (Nat × Nat) → Option (List (Nat × Nat))
   | _, [], labs => some labs
   | 0, _ :: _, _ => none
   | fuel + 1, n :: rest, labs =>
@@ -123,15 +150,24 @@ def exactlyOnce (B : Blocking) (chops : List Nat) : Bool :=
   | none => false
   | some labs => (chopsPerFamily labs chops).all (fun p => p.2 == 1)
 
-/-- every family holds at least one chopped axis (equivalent to `writeOk`, see Props) -/
-def atLeastOnce (B : Blocking) (chops : List Nat) : Bool :=
-  match families B with
-  | none => false
-  | some labs => (chopsPerFamily labs chops).all (fun p => 1 ≤ p.2)
+/-- no two different chopped axes lie in the same family: the closure of one never contains another -/
+def separatedT (T : List Mask) (chops : List Nat) : Bool :=
+  chops.all (fun s => match closureT T [s] with
+    | some d => chops.all (fun t => Nat.beq t s || !memN t d)
+    | none => false)
+
+def separated (B : Blocking) (chops : List Nat) : Bool := separatedT (wireTable B) chops
+
+/-- the chop calls do not interfere: no family receives chops from two different calls
+    (`calls` = the chopped nodes of every documented call) -/
+def callsSeparatedT (T : List Mask) (calls : List (List Nat)) : Bool :=
+  (List.range calls.length).all (fun i => match closureT T (calls.getD i []) with
+    | some d => (List.range calls.length).all (fun j => Nat.beq i j || (calls.getD j []).all (fun t => !memN t d))
+    | none => false)
+
+def callsSeparated (B : Blocking) (calls : List (List Nat)) : Bool := callsSeparatedT (wireTable B) calls
 
 /-! ### lofting a quad map -/
-
-def maxOf (xs : List Nat) : Nat := xs.foldl max 0
 
 /-- number of points of a quad map (`max index + 1`, as `MappedSketch.positions` does) -/
 def nPoints (quads : List (List Nat)) : Nat := maxOf (quads.map maxOf) + 1
@@ -147,12 +183,17 @@ def stackBlocks (quads : List (List Nat)) (k : Nat) : Blocking :=
 /-- vertex ids in order of first appearance -/
 def firstSeen : List Nat → List Nat → List Nat
   | [], acc => acc.reverse
-  | v :: vs, acc => if acc.contains v then firstSeen vs acc else firstSeen vs (v :: acc)
+  | v :: vs, acc => if memN v acc then firstSeen vs acc else firstSeen vs (v :: acc)
+
+/-- position of `v` in a list (its length when absent) -/
+def idxN (v : Nat) : List Nat → Nat
+  | [] => 0
+  | x :: xs => if Nat.beq v x then 0 else idxN v xs + 1
 
 /-- renumbering as `Mesh._add_vertices` does: a new index for every vertex not met before -/
 def canon (B : Blocking) : Blocking :=
-  let order := firstSeen B.flatten []
-  B.map (fun b => b.map (fun v => order.idxOf v))
+  match firstSeen B.flatten [] with
+  | order => B.map (fun b => b.map (fun v => idxN v order))
 
 /-- quads in the order of `shape.operations` = flattened `Sketch.grid` -/
 def opQuads (quads : List (List Nat)) (grid : List (List Nat)) : List (List Nat) :=
